@@ -13,7 +13,7 @@ use rand::{Rng, SeedableRng};
 use serde_json::{Value, json};
 use zerv::version::pep440::PEP440;
 use zerv::version::semver::SemVer;
-use zerv::version::zerv::{Component, Var, Zerv, ZervSchema, ZervVars};
+use zerv::version::zerv::{Component, PreReleaseLabel, PreReleaseVar, Var, Zerv, ZervSchema, ZervVars};
 
 use crate::cli::{Outcome, argv, run_cli};
 use crate::wire::*;
@@ -90,7 +90,11 @@ fn random_object(rng: &mut StdRng) -> Zerv {
     let opt_s = |rng: &mut StdRng| if rng.gen_bool(0.6) { Some(nasty(rng)) } else { None };
     let opt_n = |rng: &mut StdRng| if rng.gen_bool(0.6) { Some(match rng.gen_range(0..4) { 0 => 0, 1 => rng.gen_range(0..100), 2 => u32::MAX as u64, _ => u64::MAX - rng.gen_range(0..2) }) } else { None };
     let vars = ZervVars {
-        major: opt_n(rng), minor: opt_n(rng), patch: opt_n(rng), epoch: opt_n(rng), pre_release: None, post: opt_n(rng), dev: opt_n(rng),
+        major: opt_n(rng), minor: opt_n(rng), patch: opt_n(rng), epoch: opt_n(rng),
+        // a pre-release with and without number (0 is a number, not "no number")
+        pre_release: if rng.gen_bool(0.5) { Some(PreReleaseVar { label: [PreReleaseLabel::Alpha, PreReleaseLabel::Beta, PreReleaseLabel::Rc][rng.gen_range(0..3)],
+                                                                  number: [None, Some(0), Some(1), Some(u32::MAX as u64)][rng.gen_range(0..4)] }) } else { None },
+        post: opt_n(rng), dev: opt_n(rng),
         distance: opt_n(rng), dirty: if rng.gen_bool(0.3) { Some(false) } else { None },
         bumped_branch: opt_s(rng), bumped_commit_hash: if rng.gen_bool(0.5) { Some(["abcdef0", "g0123456789abcdef", ""][rng.gen_range(0..3)].to_string()) } else { None },
         bumped_timestamp: opt_n(rng).map(|n| n % 4_000_000_000), last_branch: opt_s(rng),
@@ -108,7 +112,7 @@ fn random_object(rng: &mut StdRng) -> Zerv {
         });
     }
     let schema = ZervSchema::new(vec![Component::Var(Var::Major), Component::Var(Var::Minor), Component::Var(Var::Patch)],
-                                 vec![Component::Var(Var::Epoch), Component::Var(Var::Post), Component::Str(nasty(rng))], build).unwrap();
+                                 vec![Component::Var(Var::Epoch), Component::Var(Var::PreRelease), Component::Var(Var::Post), Component::Str(nasty(rng))], build).unwrap();
     Zerv { schema, vars }
 }
 
